@@ -33,8 +33,10 @@ def close_all():
 class Session:
     HORIZON = 1e12
 
-    def __init__(self, backend, config=None, storage_options=None, max_limit=6000, subscriber=True):
+    def __init__(self, backend, config=None, storage_options=None, max_limit=6000, subscriber=True, second_worker=False):
         self.backend = backend
+        self.second_worker = second_worker
+        self.st2 = None
         so = dict(storage_options or {})
         so.setdefault("stats_interval", 1e15)  # housekeeping timer out of reach of the virtual clock
         self.w = World(backend, config=config, storage_options=so, max_limit=max_limit, message_timeout=1e300, _session=True)
@@ -49,12 +51,18 @@ class Session:
                 await asyncio.gather(self.w.storage.get_event("00" * 32), self.w.storage.get_event("11" * 32))
 
             self.w.call(two(), self.HORIZON)
+            if second_worker:
+                # a second worker process on the same database file: its own DBStorage object (own engine, own in-memory state), set up
+                # while the database is still empty; the query connection of this session is served by it
+                ns = self.w.ns
+                self.st2 = ns.db.DBStorage(dict(ns.Config.storage))
+                self.w.call(self.st2.setup(), self.HORIZON)
         self._open_conns()
 
     def _open_conns(self):
         w = self.w
         self.cw = w.connect("w", "1.1.1.1")  # submits events
-        self.cq = w.connect("q", "3.3.3.3")  # queries
+        self.cq = w.connect("q", "3.3.3.3", storage=self.st2)  # queries (through the second worker if there is one)
         self.cs = None
         if self.with_subscriber:
             self.cs = w.connect("s", "2.2.2.2")  # subscribed to (nearly) everything
@@ -68,6 +76,18 @@ class Session:
         if self._raw is not None:
             self._raw.close()
             self._raw = None
+        if self.st2 is not None:
+            import sqlalchemy as sa
+
+            try:
+                self.w.call(self.st2.close(), 10.0)
+            except BaseException:
+                pass
+            try:
+                sa.event.remove(sa.engine.base.Engine, "connect", self.st2._set_sqlite_pragma)
+            except Exception:
+                pass
+            self.st2 = None
         self.w.close()
 
     # ---------------------------------------------------------------------------------------------
@@ -193,7 +213,7 @@ class Session:
         w = self.w
         c = self.cq
         if c.closed_by_relay is not None or c.task.done():
-            self.cq = c = w.connect("q%d" % w.tick(), "3.3.3.3")
+            self.cq = c = w.connect("q%d" % w.tick(), "3.3.3.3", storage=self.st2)
             w.run()
         n0 = len(c.transcript)
         w.send(c, json.dumps(["REQ", sub_id] + list(filters), ensure_ascii=False), self.HORIZON)
